@@ -79,12 +79,11 @@ impl Display for TokenKind {
             TokenKind::Lit(_) => "literal",
             TokenKind::Dir(_) => "preprocessor directive",
             TokenKind::Reg(_) => "register",
-            TokenKind::Whitespace
-            | TokenKind::Comment
-            | TokenKind::Eof
-            | TokenKind::Byte(_)
-            | TokenKind::Breakpoint => {
-                unreachable!("whitespace, comment, eof, byte, breakpoint attempted to be displayed")
+            // Preprocessed `.fill`/`.blkw`/`.stringz`/`.break`: can show up in diagnostics when
+            // written where an operand is expected
+            TokenKind::Byte(_) | TokenKind::Breakpoint => "preprocessor directive",
+            TokenKind::Whitespace | TokenKind::Comment | TokenKind::Eof => {
+                unreachable!("whitespace, comment, eof attempted to be displayed")
             }
         };
         f.write_str(lit)
